@@ -4,6 +4,7 @@ Statements only; proofs are one-liners from `Sqroot/Proofs/Root.lean`.
 The manager arithmetic (`sqrtMgr v`) is the text regenerated from /repo's compute.go of version v.
 -/
 import Sqroot.Proofs.Root
+import Sqroot.Model.Api
 namespace Sqroot.Props.C01
 open Sqroot.Model Sqroot.Proofs
 
@@ -32,6 +33,16 @@ theorem sqrt_repr_indep (v : Version) (num den c : Nat) (hnum : 0 < num) (hden :
     (hc : 0 < c) (k : Nat) :
     rootPrefix (sqrtMgr v) (c * num) (c * den) k = rootPrefix (sqrtMgr v) num den k :=
   root_repr_indep (sqrt_mgr_correct v) num den c hnum hden hc k
+
+/-- r = 0 yields the zero number (IsZero, exponent 0, no digits) for every positive denominator;
+every other admissible radicand yields the lazily computed root of `num/den` with `0 < num`,
+`0 < den` — the hypotheses of the exactness theorem -/
+theorem zero_radicand_gives_zero_number (den : Int) (hden : 0 < den) : nRootFrac 0 den = .ok .zero :=
+  nRootFrac_zero den hden
+
+theorem positive_radicand_gives_root (num den : Int) (hnum : 0 < num) (hden : 0 < den) :
+    nRootFrac num den = .ok (.root num.toNat den.toNat) ∧ 0 < num.toNat ∧ 0 < den.toNat :=
+  nRootFrac_pos num den hnum hden
 
 /-- non-vacuity: a concrete instance (√(3/70000) to 12 digits) meets the hypotheses and the
 conclusion evaluates to true -/
